@@ -217,6 +217,9 @@ pub fn spmat_ops_small(s: &mut Src) -> R {
     let (a, b, c) = (mk(&da, m, n), SpMat::from_dense_data((m, n), db.iter().flatten().cloned().collect::<Vec<_>>()), mk(&dc, n, k));
     let same = |x: &SpMat<i64>, d: &D, r: usize, c: usize| -> bool { x.shape() == (r, c) && { let xd = x.clone().into_dense(); (0..r).all(|i| (0..c).all(|j| xd[(i, j)] == d[i][j])) } };
     ob!(same(&a, &da, m, n) && same(&b, &db, m, n), "SpMat::from_entries/from_dense_data/into_dense");
+    // from_entries drops zero values; explicitly stored zeros come from arithmetic: (A + B) - B has the entries of A on the pattern of A and B
+    let a = if s.bool() { &(&a + &b) - &b } else { a };
+    ob!(same(&a, &da, m, n), "SpMat::(A+B)-B==A");
     let add: D = (0..m).map(|i| (0..n).map(|j| da[i][j] + db[i][j]).collect()).collect();
     let sub: D = (0..m).map(|i| (0..n).map(|j| da[i][j] - db[i][j]).collect()).collect();
     let neg: D = (0..m).map(|i| (0..n).map(|j| -da[i][j]).collect()).collect();
@@ -297,6 +300,9 @@ pub fn spvec_mat_ops_small(s: &mut Src) -> R {
     let dv: Vec<i64> = ev[..n].to_vec(); let dw: Vec<i64> = ew[..n].to_vec();
     let (v, w) = (SpVec::from(dv.clone()), SpVec::from(dw.clone()));
     ob!(v.dim() == n && v.to_dense() == dv && v.clone().into_vec() == dv, "SpVec::from/to_dense/into_vec/dim");
+    // explicitly stored zeros: (v + w) - w
+    let v = if s.bool() { &(&v + &w) - &w } else { v };
+    ob!(v.to_dense() == dv, "SpVec::(v+w)-w==v");
     ob!(v.is_zero() == dv.iter().all(|&x| x == 0), "SpVec::is_zero");
     ob!(SpVec::<i64>::zero(n).to_dense() == vec![0; n] && SpVec::<i64>::zero(n).is_zero(), "SpVec::zero");
     if n > 0 { let u = a0 % n; let mut du = vec![0i64; n]; du[u] = 1; ob!(SpVec::<i64>::unit(n, u).to_dense() == du, "SpVec::unit"); }
